@@ -23,7 +23,7 @@ def run(chk):
         if v:
             chk.violation(v["sig"], v["desc"], dict(kind="panic"))
             return
-        raise vlib.MachineryError("C20 driver failed:\n" + t["out"][-3500:])
+        raise vlib.driver_failed("C20 driver failed", t["out"])
     res = json.load(open(resf))
     for v in res["violations"] or []:
         chk.violation(v["sig"], v["desc"], dict(kind="c20", detail=v))
